@@ -77,8 +77,11 @@ def outTables (tb : Tables) : Scalar → Table
 /-- which listed deviation an unsound output arm belongs to -/
 def flagOfArm (nulls : Bool) (s : Scalar) (k : Kind) (a : Action) : String :=
   match a with
-  | .parseIntKeep _ | .parseFloatKeep _ | .parseBoolKeep | .timeParseKeep => if nulls then "D16" else "D15"
+  | .parseIntKeep _ | .parseInt32Keep | .parseBoolKeep | .timeParseKeep | .convCheckedKeep _ =>
+    if nulls then "D16-int" else "D15"
+  | .parseFloatKeep _ => if nulls then "D16" else "D15"
   | .fmtInt => "D48"
+  | .conv _ => if k.isInt && (s == .int || s == .int64) then "D16-int" else "D16"
   | _ => if (s == .float || s == .float64) && k == .str && !nulls then "D15" else "D16"
 
 /-- deviations exercised by this case -/
@@ -132,12 +135,12 @@ def handle (tb : Tables) (c impl : T) : String :=
 
 def hasKeep (tbl : Table) : Bool :=
   tbl.arms.any (fun p => match p.2 with
-    | .parseIntKeep _ | .parseFloatKeep _ | .parseBoolKeep | .timeParseKeep => true | _ => false)
+    | .parseIntKeep _ | .parseInt32Keep | .parseFloatKeep _ | .parseBoolKeep | .timeParseKeep => true | _ => false)
 
 def flags (tb : Tables) : List (String × Bool) :=
   let all : List Scalar := [.int, .int64, .float, .float64, .string, .id, .boolean, .time]
   let unsound := all.flatMap (fun s => (unsoundOutR tb.leafErrNulls s (outTables tb s)).map (fun p => flagOfArm tb.leafErrNulls s p.1 p.2))
-  [("D15", unsound.contains "D15"), ("D16", unsound.contains "D16"), ("D48", unsound.contains "D48"),
+  [("D15", unsound.contains "D15"), ("D16", unsound.contains "D16"), ("D16-int", unsound.contains "D16-int"), ("D48", unsound.contains "D48"),
    ("D17", true), ("D18", tb.fastSliceCopies)]
 
 end Ggql.Driver.C05
